@@ -45,6 +45,36 @@ pub fn generate(rng: &mut Rng, seed: u64, run: u64, max_len: usize) -> Trace {
     let mut ops = Vec::new();
     let mut covered = 0;
     let mode = rng.below(3);
+    if rng.chance(1, 6) {
+        // line mode: a caller that writes each line's text and its terminator as separate
+        // coloured writes ("\n" and "\r\n" on their own)
+        wl.bytes.clear();
+        for _ in 0..rng.range(1, 5) {
+            for _ in 0..rng.range(0, 6) {
+                wl.bytes.push(0x20 + rng.below(0x5f) as u8);
+            }
+            if rng.chance(1, 3) {
+                wl.bytes.extend_from_slice(b"\r\n");
+            } else {
+                wl.bytes.push(b'\n');
+            }
+        }
+    }
+    let n = wl.bytes.len();
+    if mode == 2 && wl.bytes.contains(&b'\n') {
+        let mut start = 0;
+        for (i, b) in wl.bytes.iter().enumerate() {
+            if *b == b'\n' {
+                let text_end = if i > start && wl.bytes[i - 1] == b'\r' { i - 1 } else { i };
+                if text_end > start {
+                    ops.push(Op::Write(text_end - start));
+                }
+                ops.push(Op::Write(i + 1 - text_end));
+                start = i + 1;
+            }
+        }
+        covered = start;
+    }
     while covered < n {
         let len = match mode {
             0 => n,
